@@ -41,10 +41,12 @@ def consts(**over):
         OutResults=[('val', 'v1'), ('exc', 'E1')],
         Ctl=[], Ends=['ret', 'raise'],
         Classes=[K('K1')], Draws=['low'], Extractors=['none'], SaveFails=[False],
-        Toggles=0, StartEnabled=[True], MaxSteps=2, MaxRuns=1, MaxRecs=1, Modes=[], EditKinds=[],
+        Toggles=0, StartEnabled=[True], MaxSteps=2, MaxPSteps=None, MaxRuns=1, MaxRecs=1, Modes=[], EditKinds=[],
         InOpts=[], OutOpts=[], PlayFaults=[],
         FixF1=True, FixF2=True, FixF3=True, FixF10=True)
     c.update(over)
+    if c['MaxPSteps'] is None:
+        c['MaxPSteps'] = c['MaxSteps']
     if c['SentVals'] is None:
         c['SentVals'] = list(c['Vals'])
     if c['World'] is None:
@@ -70,7 +72,7 @@ def to_tla_consts(c):
         OutResults=set(tuple(x) for x in c['OutResults']), Ctl=set(c['Ctl']), Ends=set(c['Ends']),
         Classes=recset(c['Classes']), Draws=set(c['Draws']), Extractors=set(c['Extractors']),
         SaveFails=set(c['SaveFails']), Toggles=c['Toggles'], StartEnabled=set(c['StartEnabled']),
-        MaxSteps=c['MaxSteps'], MaxRuns=c['MaxRuns'], MaxRecs=c['MaxRecs'], Modes=set(c['Modes']),
+        MaxSteps=c['MaxSteps'], MaxPSteps=c['MaxPSteps'], MaxRuns=c['MaxRuns'], MaxRecs=c['MaxRecs'], Modes=set(c['Modes']),
         EditKinds=set(c['EditKinds']), InOpts=recseq(c['InOpts']), OutOpts=recseq(c['OutOpts']),
         PlayFaults=set(c['PlayFaults']),
         FixF1=c['FixF1'], FixF2=c['FixF2'], FixF3=c['FixF3'], FixF10=c['FixF10'])
